@@ -73,3 +73,9 @@ package server
 //@ func server.(*unaryServerTransportStream).setHeaderLocked
 //@   inline
 //@   holds server.unaryServerTransportStream.mu
+
+// constructor: preconditions proved at runStream's call; objinv(result.0) is proved at its return
+//@ func server.NewServerStream
+//@   inline
+//@   requires ctx != nil && rw != nil
+//@   requires forall j Int :: 0 <= j && j < len(statsHandlers) ==> statsHandlers[j] != nil
